@@ -29,3 +29,4 @@ def rules(ctx):
     S.header_codec_rules(ctx)
     S.c01_r2_grow(ctx)
     S.root_pair_rules(ctx)
+    S.tree_root_update_rules(ctx)
